@@ -51,6 +51,7 @@ class Shift:
         self.unknown = []
         self.observed = 0
         self.final = False
+        self.depth = 0
 
     # -- expressions -----------------------------------------------------------------------------------
     def e(self, n, depth=0):
@@ -253,8 +254,31 @@ class Shift:
             return ZERO
         if all((v != TOP and v[0] == "lin" and v[1] == 0) for v in allv):
             return ZERO
-        self.observed += 1
-        self.problems.append((n, "`%s` receives a quantity of shift degree %s" % (norm.render(P, n)[:70], ", ".join(self.show(v) for v in allv if v != ZERO))))
+        # a function whose body is available: analyse it with the degrees of the actual arguments (interprocedural step)
+        G = P.funcs.get(n.get("callee")) if n.get("callee") else None
+        if G is not None and G.body is not None and G is not self.F and not qn.startswith(("std::", "__gnu_cxx::")) and self.depth < 4 and len(G.params) == len(vals) and all(v is not None for v in vals):
+            sub = Shift(P, G, [], summaries=self.summaries, position_fields=self.position_fields)
+            sub.depth = self.depth + 1
+            for pk, v in zip(G.params, vals):
+                if v != ZERO:
+                    sub.env[pk] = v
+            sub.run(result_degree=None)
+            self.observed += sub.observed
+            for (nd, txt) in sub.problems:
+                self.problems.append((n, "in %s: %s" % (G.qn.split("::")[-1], txt)))
+            self.unknown += sub.unknown
+            out = None
+            for y in G.walk(G.body):
+                if y.get("k") == "ReturnStmt" and y.get("c"):
+                    sub.final = True
+                    out = join(out, sub.e(y["c"][0]))
+            return out if out is not None else ZERO
+        if any(v is None for v in allv):
+            return None
+        if qn.startswith("std::") and nm in ("pow", "sqrt", "sin", "cos", "tan", "fabs", "abs", "exp", "log", "atan2", "acos", "asin", "atan", "fmod", "floor", "ceil", "round", "hypot"):
+            return TOP       # a non-linear function of a translation-dependent quantity; judged where it is observed
+        # a function this analysis cannot look into, fed with a translation-dependent quantity: cannot judge
+        self.unknown.append("`%s` receives a quantity of shift degree %s and is not analysed" % (norm.render(P, n)[:70], ", ".join(self.show(v) for v in allv if v != ZERO)))
         return ZERO
 
     # -- statements ------------------------------------------------------------------------------------
@@ -293,6 +317,7 @@ class Shift:
         for it in range(16):
             self.changed = False
             self.problems = []
+            self.unknown = []
             self.observed = 0
             for n in F.walk(F.body):
                 k = n.get("k")
@@ -376,7 +401,9 @@ def translation_invariance(P, rep, rule="SHIFT.translation"):
         sh = Shift(P, F, pos, summaries=summaries)
         problems = sh.run(result_degree=result_degree)
         n += 1
-        if sh.observed < 3:
+        if sh.unknown and not problems:
+            rep.unknown(rule, "%s: %s" % (qn.split("::")[-1], sh.unknown[0]))
+        elif sh.observed < 3:
             rep.unknown(rule, "%s: only %d observable points analysed" % (qn, sh.observed))
         elif problems:
             node, text = problems[0]
